@@ -57,9 +57,19 @@ ArgMapsFor(ps, j) ==
       drop(i) == SelectSeq(ex, LAMBDA e : e.n # ex[i].n)
       retype(i, t) == [k \in 1..n |-> IF k = i THEN Entry(ex[i].n, t, ArgVal(t, j)) ELSE ex[k]]
       other(t) == IF t = T8 THEN TTup(<<TU(4), TU(4)>>) ELSE IF t = TBool THEN T1 ELSE IF t.k = "opt" THEN TEither(TUnit, t.e) ELSE T8
+      \* mistyped arguments whose VALUE does not show the difference: the type differs only where the value has no
+      \* content (the element type of None / of an empty list, the untaken side of Left / Right, the list bound)
+      hidden(t) == CASE t.k = "opt" -> <<[ty |-> TOpt(T8), v |-> VNone]>>
+                     [] t.k = "either" -> <<[ty |-> TEither(t.l, T8), v |-> VLeft(ArgVal(t.l, j))],
+                                            [ty |-> TEither(T8, t.r), v |-> VRight(ArgVal(t.r, j))]>>
+                     [] t.k = "list" -> <<[ty |-> TList(T8, t.b), v |-> VList(<<>>)], [ty |-> TList(t.e, 2 * t.b), v |-> VList(<<>>)]>>
+                     [] OTHER -> <<>>
+      hid(i) == LET h == hidden(ps[i].t) IN
+                [m \in 1..Len(h) |-> [k \in 1..n |-> IF k = i THEN Entry(ex[i].n, h[m].ty, h[m].v) ELSE ex[k]]]
   IN <<ex, ex \o <<Entry("ZZ", T8, ArgVal(T8, 1))>>, <<>>>>
      \o [i \in 1..n |-> drop(i)]
      \o [i \in 1..n |-> retype(i, other(ps[i].t))]
+     \o Concat([i \in 1..n |-> hid(i)])
 
 PFamilies == {[k |-> k, rot |-> r] : k \in 0..4, r \in 0..(IF Thorough THEN 7 ELSE 3)}
 PProgramsOf(f) ==
